@@ -42,13 +42,12 @@ pub(crate) fn abs_reset_all() {
 }
 
 pub(crate) fn abs_writer(id: usize, interval: usize) -> BlockWriter {
-    BlockWriter {
-        buffer: Vec::new(),
-        last_key: None,
-        index_key_interval: NonZeroUsize::new(interval).unwrap(),
-        index_offsets: Vec::new(),
-        index_key_counter: id,
-    }
+    // built through the real builder (robust against representation changes of the other fields); only the id is poked in
+    let mut b = BlockWriter::builder();
+    b.index_key_interval(NonZeroUsize::new(interval).unwrap());
+    let mut w = b.build();
+    w.index_key_counter = id;
+    w
 }
 
 pub(crate) fn abs_id(bw: &BlockWriter) -> usize {
@@ -376,13 +375,16 @@ fn order_check(expect_panic: bool) {
     let mut bw = BlockWriter::new();
     bw.insert(&k1[..l1], &[]);
     bw.insert(&k2[..l2], &[1]);
-    // reached only when no panic happened
-    match bw.last_key() {
-        Some(k) => assert!(k.len() == l2),
-        None => panic!("last_key lost"),
+    // reached only when no panic happened: in the should_panic harness this witness must be UNREACHABLE
+    kani::cover!(true);
+    if !expect_panic {
+        match bw.last_key() {
+            Some(k) => assert!(k.len() == l2),
+            None => panic!("last_key lost"),
+        }
+        kani::cover!(l1 == 0 && l2 == 1);
+        kani::cover!(l1 == 1 && l2 == 2 && k1[0] == k2[0]);
     }
-    kani::cover!(l1 == 0 && l2 == 1);
-    kani::cover!(l1 == 1 && l2 == 2 && k1[0] == k2[0]);
     std::mem::forget(bw);
 }
 
